@@ -38,6 +38,15 @@ REQUIRED_COUNTERS = [
     "extras.default_or_notpassed", "access.attribute", "access.item", "families", "family.accepted_level1",
 ]
 
+ANCHORS = [
+    "statham.schema.elements.base:Element.construct",
+    "statham.schema.elements.properties:Properties.__call__",
+    "statham.schema.elements.items:Items.__call__",
+    "statham.schema.elements.object:Object.__init__",
+    "statham.schema.elements.composition:_attempt_schemas",
+    "statham.schema.elements.numeric:Number.construct",
+]
+
 
 def plan(tier):
     if tier == "quick":
